@@ -314,11 +314,11 @@ func run(cs Case) (obs Obs, got *model.ProviderInfo) {
 // ---------------------------------------------------------------------------
 // the specification, written from the property text (independent of the Coq model):
 //
-//  the provider itself; then each context-level extended provider registered for that
-//  context ID; then, unless that context overrides them, each chain-level extended
-//  provider; the provider's own entry is skipped where it adds no new metadata; the
-//  looked-up metadata is substituted where an extended provider has none of its own
-//  (absent or empty).  Lists of different lengths: results or an error, never a panic.
+//	the provider itself; then each context-level extended provider registered for that
+//	context ID; then, unless that context overrides them, each chain-level extended
+//	provider; the provider's own entry is skipped where it adds no new metadata; the
+//	looked-up metadata is substituted where an extended provider has none of its own
+//	(absent or empty).  Lists of different lengths: results or an error, never a panic.
 func specResults(info *model.ProviderInfo, pid peer.ID, ctxID, md []byte) []Item {
 	item := func(ai peer.AddrInfo, m []byte) Item {
 		return Item{Ctx: ctxID, Md: m, MdNil: m == nil, ID: pcdrv.PeerIndex(ai.ID), Tag: pcdrv.AddrTag(ai.Addrs)}
